@@ -52,6 +52,14 @@ def _pregrads(leaves, rng, dtype):
             l.grad = torch.tensor(rng.standard_normal(tuple(l.shape)), dtype=torch.float64).to(dtype)
 
 
+def _no_grad_tensor(prng):
+    """A tensor that cannot receive a gradient: a plain leaf without requires_grad, or a FROZEN module parameter (fine-tuning)."""
+    t = torch.tensor(prng.standard_normal(2))
+    if prng.random() < 0.5:
+        return torch.nn.Parameter(t, requires_grad=False)
+    return t
+
+
 def _attempt(call, leaves, ctx, kind, case_desc, extra):
     """Runs one invalid call; if it raises, inspects every leaf's .grad."""
     before = aj.snap(leaves)
@@ -124,7 +132,7 @@ def check_backward(case, ctx):
                         break
                     bad = cand[int(prng.integers(len(cand)))]
                 else:
-                    bad = torch.tensor(prng.standard_normal(2))
+                    bad = _no_grad_tensor(prng)
                 inputs = rg[:pos] + [bad] + rg[pos:]
                 order = list(set(inputs))
                 where = [id(x) for x in order].index(id(bad))
@@ -246,7 +254,7 @@ def check_mtl(case, ctx):
                         continue
                     bad = cand[int(prng.integers(len(cand)))]
                 else:
-                    bad = torch.tensor(prng.standard_normal(2))
+                    bad = _no_grad_tensor(prng)
                 ta[i] = ta[i][:p] + [bad] + ta[i][p:]
                 run(f"task_param_{kind}", lambda: mtl_backward(b.losses, b.features, agg(), tasks_params=ta, shared_params=sh, parallel_chunk_size=[None, 1][p % 2]),
                     b, {"task": i, "position": p}, later=i > 0)
@@ -260,7 +268,7 @@ def check_mtl(case, ctx):
                     continue
                 bad = cand[int(prng.integers(len(cand)))]
             else:
-                bad = torch.tensor(prng.standard_normal(2))
+                bad = _no_grad_tensor(prng)
             sh2 = sh[:p] + [bad] + sh[p:]
             run(f"shared_param_{kind}", lambda: mtl_backward(b.losses, b.features, agg(), tasks_params=ta, shared_params=sh2), b, {"position": p}, later=True)
     ctx.sample({"entry": "mtl_backward", "tasks": t, "shared": dshared, "tasks_params": dtasks, "kinds": "14 kinds at every position of every list"})
